@@ -832,6 +832,10 @@ type replayFile struct {
 	// HistoryHi: the comparing process evaluated the seeds HistoryHi-1 down to Seed+1 before
 	// this one (the reference process evaluated them in ascending order): replayed first
 	HistoryHi uint64 `json:"history_hi,omitempty"`
+	// BlockLo/BlockHi: the block of seeds the two processes of the digest phases walked
+	// (replay = both processes again over a block, on the tree being looked at)
+	BlockLo uint64 `json:"block_lo,omitempty"`
+	BlockHi uint64 `json:"block_hi,omitempty"`
 	Violation    *simh.Violation `json:"violation,omitempty"`
 	ShrinkArrays []string        `json:"shrink_arrays"`
 	ShrinkInts   []string        `json:"shrink_ints"`
@@ -1242,6 +1246,8 @@ func digests(job *simh.Job, out *simh.Out) {
 			if reverse {
 				rf.HistoryHi = job.SeedHi
 			}
+			rf.BlockLo, rf.BlockHi = job.SeedLo, job.SeedHi
+			rf.ShrinkArrays = nil // the inputs of a block are regenerated from their seeds
 			rf.Digest = strconv.FormatUint(ref[seed-job.SeedLo], 16)
 			out.Line(map[string]interface{}{"t": "violation", "seed": seed, "replay": rf})
 			sum.SeedNext = seed
@@ -1310,15 +1316,6 @@ func candidates(job *simh.Job, out *simh.Out) {
 		case !ok:
 		case rf.Oracle == "repetition" || rf.Oracle == "process-repetition":
 			// plain build: repeat the call; compare with each other and with the recorded digest
-			for hs := rf.HistoryHi; hs > rf.Seed+1; hs-- {
-				hin := genInput(hs - 1)
-				if ids := otherLevels(&hin, hs-1); ids != nil {
-					call(&hin, ids, hin.Rings, hin.Reverse)
-				}
-				for k := 0; k < 3; k++ {
-					call(&hin, hin.IDs, hin.Rings, hin.Reverse)
-				}
-			}
 			first := ""
 			ids2 := otherLevels(&rf.Input, rf.Seed)
 			for k := 0; k < 64 && class == ""; k++ {
@@ -1334,7 +1331,8 @@ func candidates(job *simh.Job, out *simh.Out) {
 				if k == 0 {
 					first = c
 				}
-				if c != first || (rf.Digest != "" && d != rf.Digest) {
+				_ = d // (the digest another process produced belongs to the tree it ran on: not compared here)
+				if c != first {
 					class, msg = rf.Violation.Class, "repeated call returned different geometry"
 				}
 			}
